@@ -54,26 +54,43 @@ def main():
             sh('git apply -R %s' % patch, cwd=wt)
             rc2, o2 = sh(cmd, env=env)
             res['demo_without_patch_rc'] = rc2
-        # run the checks against /repo with the patch applied
-        st = sh('git -C %s status --porcelain' % REPO)[1].strip()
-        if st:
-            res['error'] = '/repo is not clean: ' + st[:200]
-            return res
+        # run the checks against /repo with the patch applied (default), or, with SEED_EVAL_SCRATCH=1, against a scratch
+        # copy of /repo (CBV_REPO) so that several evaluations and a self-test can run side by side
+        scratch = os.environ.get('SEED_EVAL_SCRATCH') == '1'
         ev = tempfile.mkdtemp(prefix='cbv-seed-ev-')
+        root = REPO
+        if scratch:
+            root = os.path.join(ev, 'repo')
+            assert sh('rsync -a --exclude target --exclude .git %s/ %s/' % (REPO, root))[0] == 0
+        else:
+            st = sh('git -C %s status --porcelain' % REPO)[1].strip()
+            if st:
+                res['error'] = '/repo is not clean: ' + st[:200]
+                return res
         try:
-            assert sh('git -C %s apply %s' % (REPO, patch))[0] == 0
+            if scratch:
+                assert sh('patch -p1 -s -i %s' % patch, cwd=root)[0] == 0
+            else:
+                assert sh('git -C %s apply %s' % (REPO, patch))[0] == 0
             man = json.load(open(os.path.join(VERIF, 'MANIFEST.json')))
             fired = {}
-            env2 = dict(os.environ, CBV_EVIDENCE=ev)
+            env2 = dict(os.environ, CBV_EVIDENCE=os.path.join(ev, 'ev'))
+            if scratch:
+                env2.update(CBV_REPO=root, CBV_TAG='-seed' + label)
             for c in man['checks']:
                 rc, o = sh(c['quick_cmd'], cwd=VERIF, env=env2)
                 rules = sorted({l.split()[0][5:] + ' ' + l.split()[1][4:] for l in o.splitlines() if l.strip().startswith('rule=')})
                 if rc != 0:
                     fired[c['property_id']] = {'rc': rc, 'rules': rules, 'first': [l.strip()[:300] for l in o.splitlines() if l.strip().startswith('rule=')][:2]}
             res['checks_fired'] = fired
+            res['checks_ran_on'] = 'scratch copy of /repo with the patch (CBV_REPO)' if scratch else '/repo with the patch applied, restored afterwards'
         finally:
-            sh('git -C %s checkout -- .' % REPO)
+            if not scratch:
+                sh('git -C %s checkout -- .' % REPO)
             shutil.rmtree(ev, ignore_errors=True)
+            if scratch:
+                for prof in ('dev', 'release'):
+                    shutil.rmtree(os.path.join(VERIF, '.work', 'target-%s-seed%s' % (prof, label)), ignore_errors=True)
         res['repo_clean_after'] = sh('git -C %s status --porcelain' % REPO)[1].strip() == ''
         res['caught'] = bool(res.get('checks_fired'))
         res['caught_by_target_property'] = pid in res.get('checks_fired', {})
